@@ -13,6 +13,8 @@ impl Source {
     { unimplemented!() }
 }
 pub enum GdsError { RecordLen(usize), Boxed(IoError), Utf(Utf8Error) }
+impl vstd::std_specs::convert::FromSpecImpl<IoError> for GdsError { open spec fn obeys_from_spec() -> bool { true } open spec fn from_spec(e: IoError) -> GdsError { GdsError::Boxed(e) } }
+impl vstd::std_specs::convert::FromSpecImpl<Utf8Error> for GdsError { open spec fn obeys_from_spec() -> bool { true } open spec fn from_spec(e: Utf8Error) -> GdsError { GdsError::Utf(e) } }
 impl From<IoError> for GdsError { fn from(e: IoError) -> Self { GdsError::Boxed(e) } }
 impl From<Utf8Error> for GdsError { fn from(e: Utf8Error) -> Self { GdsError::Utf(e) } }
 pub type GdsResult<T> = Result<T, GdsError>;
